@@ -270,6 +270,19 @@ def work(item):
                 cb = list(textbook_basis(b, qb).T * sp.Matrix(wc))
                 out.append(decide(q, enc, f"convert_vector {a}->{b} keeps the Cartesian components", [u - v_ for u, v_ in zip(ca, cb)], dom,
                                   {"new_components": [str(c)[:80] for c in wc]}))
+            # a vector written with an UNEVALUATED cross product of base vectors (c1 e1 x e3 + c2 e2): every base vector in it is converted
+            from symplyphysics.core.experimental.vectors import VectorCross
+            v2 = comps[0] * VectorCross(ea[0], ea[2], evaluate=False) + comps[1] * ea[1]
+            w2 = convert_vector(v2, P, ss[b])
+            Ta, Tb = textbook_basis(a, ss[a].base_scalars), textbook_basis(b, qb if rest == 0 else [Pb.coordinates[s_] for s_ in ss[b].base_scalars])
+            try:
+                got2 = cart_value(w2, {e: list(Tb.row(i)) for i, e in enumerate(eb)})
+                want2 = [comps[0] * x_ + comps[1] * y_ for x_, y_ in zip(cross3(list(Ta.row(0)), list(Ta.row(2))), list(Ta.row(1)))]
+                enc2 = Enc()
+                out.append(decide(q, enc2, f"convert_vector {a}->{b} converts base vectors inside an unevaluated cross product", [u - v_ for u, v_ in zip(got2, want2)], domain(enc2, a, ss[a])))
+            except KeyError as e:
+                out.append({"name": f"convert_vector {a}->{b} converts base vectors inside an unevaluated cross product", "verdict": "candidate",
+                            "why": f"the converted vector still contains {e.args[0]}, which is not a base vector of the new system at the converted point"})
     except Unencodable as e:
         out.append({"name": f"{item[:-1]}", "verdict": "unencoded", "why": str(e)})
     except Exception as e:
@@ -277,6 +290,35 @@ def work(item):
     for o in out:
         o["item"] = list(item[:-1])
     return out
+
+
+def cross3(u, v):
+    return [u[1] * v[2] - u[2] * v[1], u[2] * v[0] - u[0] * v[2], u[0] * v[1] - u[1] * v[0]]
+
+
+def cart_value(expr, basis):
+    """Cartesian components of a vector expression over base vectors (`basis`: base vector -> textbook triple), sums, scalar multiples and
+    cross products, evaluated or not; KeyError(vector) for a vector leaf that is not in `basis`"""
+    from symplyphysics.core.experimental import vectors as V
+    expr = sp.sympify(expr)
+    if expr == 0:
+        return [sp.S.Zero] * 3
+    if expr in basis:
+        return list(basis[expr])
+    if isinstance(expr, V.VectorCross):
+        return cross3(cart_value(expr.args[0], basis), cart_value(expr.args[1], basis))
+    if isinstance(expr, sp.Add):
+        parts = [cart_value(t, basis) for t in expr.args]
+        return [sum(p_[i] for p_ in parts) for i in range(3)]
+    def is_vec(f):
+        return isinstance(f, V.VectorExpr) or f in basis or (isinstance(f, (sp.Add, sp.Mul)) and any(is_vec(g) for g in f.args))
+    if isinstance(expr, sp.Mul):
+        vecs = [f for f in expr.args if is_vec(f)]
+        if len(vecs) != 1:
+            raise KeyError(expr)
+        k = sp.Mul(*[f for f in expr.args if f is not vecs[0]])
+        return [k * c for c in cart_value(vecs[0], basis)]
+    raise KeyError(expr)
 
 
 REPLAY = r'''
@@ -288,9 +330,10 @@ from symplyphysics.core.experimental.points import AppliedPoint
 item = {item!r}
 ss = c15.systems()
 # numeric points in each system's domain (generic, y < 0 and x < 0 included)
-PTS = {{"cart": [(sp.Rational(3, 2), -2, sp.Rational(1, 2)), (-1, sp.Rational(1, 3), -2), (-2, -1, 3)],
-       "cyl": [(sp.Rational(5, 2), -sp.Rational(7, 3), sp.Rational(1, 2)), (sp.Rational(1, 3), sp.Rational(5, 2), -1), (2, sp.Rational(1, 2), 1)],
-       "sph": [(sp.Rational(5, 2), sp.Rational(2, 3), -sp.Rational(7, 3)), (sp.Rational(1, 3), sp.Rational(5, 2), sp.Rational(5, 2)), (2, 1, sp.Rational(1, 2))]}}
+# ... and points ON the coordinate planes (x = 0, y = 0, z = 0; azimuth +-pi/2, pi; polar angle pi/2), which are inside every domain
+PTS = {{"cart": [(sp.Rational(3, 2), -2, sp.Rational(1, 2)), (-1, sp.Rational(1, 3), -2), (-2, -1, 3), (0, 2, 1), (0, -2, -1), (3, 0, 1), (-3, 0, 2), (1, 2, 0)],
+       "cyl": [(sp.Rational(5, 2), -sp.Rational(7, 3), sp.Rational(1, 2)), (sp.Rational(1, 3), sp.Rational(5, 2), -1), (2, sp.Rational(1, 2), 1), (2, sp.pi / 2, 1), (2, -sp.pi / 2, -1), (3, sp.pi, 0), (1, 0, 2)],
+       "sph": [(sp.Rational(5, 2), sp.Rational(2, 3), -sp.Rational(7, 3)), (sp.Rational(1, 3), sp.Rational(5, 2), sp.Rational(5, 2)), (2, 1, sp.Rational(1, 2)), (2, sp.pi / 2, sp.pi / 2), (2, sp.pi / 2, -sp.pi / 2), (3, 1, sp.pi), (1, sp.pi / 2, 0)]}}
 def N(e): return sp.N(e, 25)
 def close(a, b): return abs(N(a) - N(b)) < 1e-15 * (1 + abs(N(a)) + abs(N(b)))
 bad = False
@@ -362,6 +405,16 @@ try:
             ca = list(c15.textbook_basis(a, pa).T * sp.Matrix(comps)); qb = [Pb.coordinates[s] for s in ss[b].base_scalars]
             cb = list(c15.textbook_basis(b, qb).T * sp.Matrix(wc))
             if sp.expand(w - sum((c * e for c, e in zip(wc, eb)), sp.S.Zero)) != 0 or not all(close(u, v_) for u, v_ in zip(ca, cb)): bad = True; print("vector", ca, cb)
+            from symplyphysics.core.experimental.vectors import VectorCross
+            ea = ss[a].base_vectors(P)
+            w2 = convert_vector(comps[0] * VectorCross(ea[0], ea[2], evaluate=False) + comps[1] * ea[1], P, ss[b])
+            Ta, Tb = c15.textbook_basis(a, pa), c15.textbook_basis(b, qb)
+            try:
+                got2 = c15.cart_value(w2, {{e: list(Tb.row(i)) for i, e in enumerate(eb)}})
+                want2 = [comps[0] * x_ + comps[1] * y_ for x_, y_ in zip(c15.cross3(list(Ta.row(0)), list(Ta.row(2))), list(Ta.row(1)))]
+                if not all(close(u, v_) for u, v_ in zip(got2, want2)): bad = True; print("vector with an unevaluated cross product", got2, want2)
+            except KeyError as e:
+                bad = True; print("converted vector still contains", e.args[0])
 except Exception as e:
     print("raised", type(e).__name__, e); bad = True
 if bad:
